@@ -78,6 +78,7 @@ func sortFnOf(name string) iface.EntrySortFn {
 
 type replica struct {
 	log   *ipfslog.IPFSLog
+	ac    accesscontroller.Interface
 	sort  string
 	logID string
 	ident string
@@ -460,7 +461,7 @@ func (h *histRun) exec() {
 				if err != nil {
 					panic(err)
 				}
-				w.reps = append(w.reps, &replica{log: l, sort: o.Sort, logID: o.LogID, ident: o.Ident})
+				w.reps = append(w.reps, &replica{log: l, ac: ac, sort: o.Sort, logID: o.LogID, ident: o.Ident})
 				ob.R = len(w.reps) - 1
 				unbounded[ob.R] = true
 			case "append":
@@ -525,6 +526,10 @@ func (h *histRun) exec() {
 				ob.Class = classifyErr(err)
 				if o.Size >= 0 {
 					h.boundedJoins++
+					unbounded[o.R] = false
+				}
+				if !unbounded[o.Src] {
+					// entries taken from a truncated log: the destination may now hold a causally open set
 					unbounded[o.R] = false
 				}
 				if err != nil {
@@ -656,6 +661,45 @@ func (h *histRun) exec() {
 	h.nEntries = len(w.created)
 	if hasTies(w.created) {
 		h.tiesPresent = 1
+	}
+	if h.boundedJoins > 0 && !h.noOracle {
+		h.probeTruncated()
+	}
+}
+
+// probeTruncated (C16, end of the history): a log left by bounded joins must BE the log holding its
+// entries and heads - it has to behave, in every later merge, like a fresh log created from exactly
+// those entries and heads.  Every truncated replica and such a twin are merged with every other
+// replica in turn and compared after each merge.
+func (h *histRun) probeTruncated() {
+	w := h.w
+	last := len(h.ops) - 1
+	for k, rep := range w.reps {
+		if h.unbounded[k] {
+			continue
+		}
+		twin, err := ipfslog.NewLog(w.api, w.idents[rep.ident], &ipfslog.LogOptions{ID: rep.logID, SortFn: sortFnOf(rep.sort),
+			AccessController: rep.ac, Entries: rep.log.GetEntries(), Heads: rep.log.Heads().Slice(), Clock: rep.log.Clock})
+		if err != nil {
+			panic(err)
+		}
+		for s, src := range w.reps {
+			if s == k || src.logID != rep.logID {
+				continue
+			}
+			h.inImpl = true
+			_, e1 := rep.log.Join(src.log, -1)
+			_, e2 := twin.Join(src.log, -1)
+			h.inImpl = false
+			a, b := snapLog(rep.log), snapLog(twin)
+			ha, hb := sortedCopy(hashesOf(rep.log.Heads().Slice())), sortedCopy(hashesOf(twin.Heads().Slice()))
+			if (e1 == nil) != (e2 == nil) || len(a.entries) != len(b.entries) || !eqStrings(ha, hb) || !eqStrings(sortedCopy(a.values), sortedCopy(b.values)) {
+				h.fail("C16", "truncated-log-is-a-log", "C16:truncated-log-differs-from-fresh-log-with-same-entries",
+					fmt.Sprintf("after the history, merging replica %d into the truncated replica %d gives %d entries, heads %v, %d values; the same merge into a fresh log created from the truncated replica's entries and heads gives %d entries, heads %v, %d values",
+						s, k, len(a.entries), ha, len(a.values), len(b.entries), hb, len(b.values)), last)
+				break
+			}
+		}
 	}
 }
 
